@@ -470,6 +470,99 @@ func recycleRules(r *Report) {
 		r.Ob("R33c", fn, "put-resets", fn.Pos(), clears && trunc && poolPut, "Put clears the argv, truncates it to length 0 and returns it to the pool")
 	}
 
+	// R33f: a pooled batch buffer whose []Completed slice was handed to a connection's DoMulti is the
+	// very slice the pipe keeps queued until its writer serialises it; it goes back to the pool only
+	// when every reply came back without a transport/context error (an abandoned call may still be
+	// queued, and Put clears the slice).
+	nBuf := 0
+	for _, fn := range p.ModuleFuncs() {
+		if !strings.HasPrefix(FuncName(fn), "rueidis.") {
+			continue
+		}
+		for _, s := range Sites(fn, func(in ssa.Instruction) bool {
+			c, ok := in.(*ssa.Call)
+			return ok && CalleeName(c) == "rueidis/internal/util.(*Pool).Put"
+		}) {
+			buf := s.Call().Common().Args[1]
+			// was a []Completed field of buf passed to an interface DoMulti in this function?
+			var sent *ssa.Call
+			for _, cs := range Sites(fn, func(in ssa.Instruction) bool {
+				c, ok := in.(*ssa.Call)
+				return ok && c.Call.IsInvoke() && c.Call.Method.Name() == "DoMulti"
+			}) {
+				c := cs.Instr.(*ssa.Call)
+				va := c.Call.Args[len(c.Call.Args)-1]
+				if _, _, base, ok := FieldRef(stripLoad(va)); ok && Same(base, buf) {
+					sent = c
+				}
+			}
+			if sent == nil {
+				continue
+			}
+			nBuf++
+			isClean := func(v ssa.Value) bool {
+				return DependsOn(v, func(x ssa.Value) bool {
+					c, ok := x.(*ssa.Call)
+					if !ok {
+						return false
+					}
+					n := CalleeName(c)
+					return n == "rueidis.(*clusterClient).doresultfn" || n == "rueidis.(RedisResult).NonRedisError"
+				})
+			}
+			// a boolean accumulator that is cleared on the arm where a reply carries a non-Redis error
+			var isFlag func(v ssa.Value, depth int) bool
+			isFlag = func(v ssa.Value, depth int) bool {
+				ph, ok := v.(*ssa.Phi)
+				if !ok || depth > 4 {
+					return false
+				}
+				for i, e := range ph.Edges {
+					if c, isc := e.(*ssa.Const); isc && c.Value != nil && c.Value.String() == "false" {
+						for _, g := range append(DomGuards(ph.Block().Preds[i]), edgeGuards(ph.Block().Preds[i], ph.Block())...) {
+							if isClean(g.Cond) {
+								return true
+							}
+						}
+					}
+					if q, isq := e.(*ssa.Phi); isq && q != ph && isFlag(q, depth+1) {
+						return true
+					}
+				}
+				return false
+			}
+			guarded := Guarded(s.Block, func(g Guard) bool { return g.Pol && (isClean(g.Cond) || isFlag(g.Cond, 0)) })
+			if !guarded {
+				// (B) every failing reply leaves the function before the Put
+				nDirty := 0
+				escapes := false
+				for _, b := range fn.Blocks {
+					iff, ok := b.Instrs[len(b.Instrs)-1].(*ssa.If)
+					if !ok || len(b.Succs) != 2 {
+						continue
+					}
+					x, op, y, cok := CmpGuard(normGuard(Guard{iff.Cond, true, b}))
+					if !cok || op != token.NEQ || !IsNilConst(y) || shortType(x.Type()) != "error" {
+						continue
+					}
+					if !DependsOn(x, func(v ssa.Value) bool {
+						c, ok := v.(*ssa.Call)
+						return ok && (CalleeName(c) == "rueidis.(RedisResult).NonRedisError" || CalleeName(c) == "rueidis.(RedisResult).ToArray")
+					}) {
+						continue
+					}
+					nDirty++
+					if hit, _ := Reaches(Site{fn, b.Succs[0], -1, nil}, func(w Site) bool { return w.Instr == s.Instr }, nil); hit {
+						escapes = true
+					}
+				}
+				guarded = nDirty > 0 && !escapes
+			}
+			r.ObSite("R33f", s, "sent-batch-buffer-recycled-only-when-clean", guarded, "the buffer whose command slice was handed to DoMulti returns to its pool only if no reply carries a non-Redis error (the pipe may still hold the slice of an abandoned call)")
+		}
+	}
+	r.Anchor("R33f", "pooled batch buffers handed to DoMulti (>= 3)", nBuf >= 3)
+
 	// R33e: nobody outside internal/cmds writes into a built command's argv
 	nStores := 0
 	for _, fn := range p.ModuleFuncs() {
